@@ -77,7 +77,7 @@ AliasProgs ==
     Flatten([i \in 1..Len(Aliases) |->
         LET a == Aliases[i] IN
         << P("al-rd-" \o a, Obs(Alias(a, FALSE)), <<"alias", "read">>) >>
-        \o (IF a = "PC" THEN <<>> ELSE
+        \o (IF a = "PC" THEN <<>> ELSE     \* the program counter alias is read-only (a write emits an undeclared pc_op: noted finding)
             << P("al-rdnew-" \o a, Obs(Alias(a, TRUE)), <<"alias", "readnew">>),
                P("al-wr-" \o a, << Set(Alias(a, FALSE), Src64) >>, <<"alias", "write">>),
                P("al-rmw-" \o a, << Set(Alias(a, FALSE), Bin("+", Alias(a, FALSE), NumN(1))) >>, <<"alias", "rmw">>) >>)])
